@@ -164,6 +164,10 @@ func (state *State) ClearInSync() {
 
 	state.wasInSync = false
 	state.isInSync = false
+
+	// The peer's "no more headers" was about the chain that has just been left. It has to say so
+	// again for the new branch before the node can be in sync.
+	state.pendingSync = false
 }
 
 func (state *State) WasInSync() bool {
